@@ -2,6 +2,7 @@
 // One process = one case: (variant, environment, profile, seed, ops).
 #include "seq.hpp"
 #include <thread>
+#include <climits>
 #include <atomic>
 #include <new>
 #include <algorithm>
@@ -343,6 +344,20 @@ vf::Blk* do_alloc(State& S, int force_ep, size_t force_size) {
       break; }
     case EP_strdup: case EP_strndup: case EP_heap_strdup: case EP_heap_strndup: {
       is_str = true;
+      if (chance(S, 1, 16)) {      // documented corner cases of the family: a NULL source yields NULL (no block), mi_realpath returns an owned block with the resolved name
+        if (mi_strdup(nullptr) != nullptr || mi_strndup(nullptr, 10) != nullptr || mi_heap_strdup(mi_heap_get_default(), nullptr) != nullptr || mi_heap_strndup(mi_heap_get_default(), nullptr, 3) != nullptr)
+          vf_trip("strdup-contents", generic_refutes(), "a strdup-family call with a NULL source returned a block");
+        char ref[PATH_MAX]; char* rp = realpath("/usr/../usr/lib/..", ref);
+        char* mp = mi_realpath("/usr/../usr/lib/..", nullptr);
+        if (rp != nullptr) {
+          if (mp == nullptr || strcmp(mp, rp) != 0) vf_trip("strdup-contents", generic_refutes(), "mi_realpath returned %s, realpath says %s", mp ? mp : "NULL", rp);
+          if (mi_usable_size(mp) < strlen(rp) + 1) vf_trip("usable-size", "C03", "mi_realpath: block of %zu usable bytes for a name of %zu characters", mi_usable_size(mp), strlen(rp));
+          char buf[PATH_MAX]; char* rb = mi_realpath("/usr/../usr/lib/..", buf);     // (declared with the malloc attribute although it returns the caller's buffer here: compare laundered addresses)
+          if (vf::addr(rb) != vf::addr(buf) || strcmp(buf, rp) != 0) vf_trip("strdup-contents", generic_refutes(), "mi_realpath with a caller buffer: wrong result");
+        }
+        mi_free(mp);
+        if (mi_realpath("/nonexistent/verif/path", nullptr) != nullptr) vf_trip("strdup-contents", generic_refutes(), "mi_realpath of a missing path returned a block");
+      }
       size_t L = (n > 8192 ? (size_t)below(S, 8193) : n);
       char* src = (char*)malloc(L + 1);
       for (size_t i = 0; i < L; i++) src[i] = (char)(1 + (vf_mix64(S.op_index * 131 + i) % 255));
